@@ -4,7 +4,7 @@
 use generic_array::sequence::GenericSequence;
 use generic_array::{ArrayLength, GenericArray, GenericArrayIter};
 use harness::engine::{self, Acc, Args, Report};
-use harness::registry::{self, Elem, Tracked, TrackedZst};
+use harness::registry::{self, Elem, Tracked, TrackedBig, TrackedZst};
 use harness::with_mid;
 use proptest::prelude::*;
 use serde::{Deserialize, Serialize};
@@ -18,6 +18,7 @@ pub enum Kind {
     Tracked,
     U32,
     Zst,
+    Big,
 }
 
 /// What to do with a clone of the iterator
@@ -100,6 +101,11 @@ impl IdOf for Tracked {
 impl IdOf for u32 {
     fn id_of(&self) -> Option<u32> {
         None
+    }
+}
+impl IdOf for TrackedBig {
+    fn id_of(&self) -> Option<u32> {
+        self.ident()
     }
 }
 impl IdOf for TrackedZst {
@@ -503,6 +509,7 @@ pub fn exec(case: &Case, acc: &mut Acc) -> Result<(), String> {
         Kind::Tracked => with_mid!(case.n, N, exec_typed::<Tracked, N>(case, acc)),
         Kind::U32 => with_mid!(case.n, N, exec_typed::<u32, N>(case, acc)),
         Kind::Zst => with_mid!(case.n, N, exec_typed::<TrackedZst, N>(case, acc)),
+        Kind::Big => with_mid!(case.n, N, exec_typed::<TrackedBig, N>(case, acc)),
     }
 }
 
@@ -550,7 +557,7 @@ fn end_strategy() -> impl Strategy<Value = End> {
 
 fn case_strategy() -> impl Strategy<Value = Case> {
     let lens = harness::lens::MID;
-    (0..lens.len(), prop_oneof![3 => Just(Kind::Tracked), 2 => Just(Kind::U32), 1 => Just(Kind::Zst)], prop::collection::vec(op_strategy(), 0..60), end_strategy())
+    (0..lens.len(), prop_oneof![3 => Just(Kind::Tracked), 2 => Just(Kind::U32), 1 => Just(Kind::Zst), 1 => Just(Kind::Big)], prop::collection::vec(op_strategy(), 0..60), end_strategy())
         .prop_map(move |(li, kind, ops, end)| Case { n: lens[li], kind, ops, end })
 }
 
@@ -683,7 +690,8 @@ pub fn decode(data: &[u8]) -> Case {
     let n = lens[g(0) as usize % lens.len()];
     let kind = match g(1) % 6 {
         0..=2 => Kind::Tracked,
-        3 | 4 => Kind::U32,
+        3 => Kind::U32,
+        4 => Kind::Big,
         _ => Kind::Zst,
     };
     let end = match g(2) % 6 {
